@@ -35,7 +35,10 @@ S_LAT = "Vérif Ünï"          # Latin-1, non-ASCII
 S_BMP = "Шрифт 字"  # BMP outside Latin-1
 S_AST = "Fam \U0001F600"                    # astral
 
-# first value of every list is the one used by the `full` base
+# first value of every list is the one used by the `full` base.
+# Every bit-list attribute has one value in which a bit number occurs more than once and out of order
+# (valid UFO3: the validators constrain the bit numbers only; a bit list is a SET of bits, and
+# mc/info_ref.bitlist treats it as one).  The code-page value repeats the top bit of a 32-bit field.
 MENU = {
     "familyName": ["Verif", "Explicit Fam", S_LAT, S_BMP, S_AST],
     "styleName": ["Regular", "Bold", "Bold Italic", "Condensed Light", S_LAT, S_BMP],
@@ -55,10 +58,12 @@ MENU = {
     "note": ["a note " + S_BMP],
     "openTypeGaspRangeRecords": [
         [{"rangeMaxPPEM": 8, "rangeGaspBehavior": [1]}, {"rangeMaxPPEM": 65535, "rangeGaspBehavior": [0, 1, 2, 3]}],
-        [{"rangeMaxPPEM": 65535, "rangeGaspBehavior": []}]],
+        [{"rangeMaxPPEM": 65535, "rangeGaspBehavior": []}],
+        [{"rangeMaxPPEM": 8, "rangeGaspBehavior": [1, 1]}, {"rangeMaxPPEM": 65535, "rangeGaspBehavior": [3, 0, 2, 0, 3]}]],
     "openTypeHeadCreated": ["2010/01/02 03:04:05", "1999/12/31 23:59:59"],
     "openTypeHeadLowestRecPPEM": [9, 0],
-    "openTypeHeadFlags": [[0, 3, 11, 12, 13], [], [0, 1, 2, 3, 4, 5, 6, 7, 8, 9, 10, 11, 12, 13, 14]],
+    "openTypeHeadFlags": [[0, 3, 11, 12, 13], [], [0, 1, 2, 3, 4, 5, 6, 7, 8, 9, 10, 11, 12, 13, 14],
+                          [3, 0, 3, 12, 12, 14, 14]],
     "openTypeHheaAscender": [900, -10],
     "openTypeHheaDescender": [-300, 20],
     "openTypeHheaLineGap": [100, 0],
@@ -87,18 +92,18 @@ MENU = {
          {"nameID": 4, "platformID": 3, "encodingID": 10, "languageID": 0x411, "string": S_AST}]],
     "openTypeOS2WidthClass": [3, 9, 1],
     "openTypeOS2WeightClass": [700, 1, 1000],
-    "openTypeOS2Selection": [[7], [], [1, 2, 3, 4, 7, 8, 9]],
+    "openTypeOS2Selection": [[7], [], [1, 2, 3, 4, 7, 8, 9], [7, 1, 7, 1]],
     "openTypeOS2VendorID": ["ABCD", "AB"],
     "openTypeOS2Panose": [[2, 11, 5, 2, 4, 5, 4, 2, 2, 4], [1, 0, 0, 0, 0, 0, 0, 0, 0, 255]],
     "openTypeOS2FamilyClass": [[8, 2], [14, 15]],
-    "openTypeOS2UnicodeRanges": [[0, 1, 2, 31, 32, 57, 122], [], [127]],
-    "openTypeOS2CodePageRanges": [[0, 1, 29, 63], [], [31, 32]],
+    "openTypeOS2UnicodeRanges": [[0, 1, 2, 31, 32, 57, 122], [], [127], [69, 1, 38, 1, 38, 100, 100, 69, 0]],
+    "openTypeOS2CodePageRanges": [[0, 1, 29, 63], [], [31, 32], [63, 0, 63, 33, 0, 31, 31]],
     "openTypeOS2TypoAscender": [750, -5],
     "openTypeOS2TypoDescender": [-250, 10],
     "openTypeOS2TypoLineGap": [90, 0],
     "openTypeOS2WinAscent": [1100, 0],
     "openTypeOS2WinDescent": [300, 0],
-    "openTypeOS2Type": [[3], [], [2, 8, 9], [1]],
+    "openTypeOS2Type": [[3], [], [2, 8, 9], [1], [3, 8, 3, 8]],
     "openTypeOS2SubscriptXSize": [700, 0],
     "openTypeOS2SubscriptYSize": [610],
     "openTypeOS2SubscriptXOffset": [-13, 0],
@@ -190,6 +195,16 @@ GLYPHS = {
     "a": {"width": 600, "unicodes": [0x61], "contours": B.SHAPES["tri"]},
     "b": {"width": 620, "unicodes": [0x62], "contours": [B.box(40, -10, 560, 710)]},
 }
+
+
+BIT_LIST_ATTRS = ("openTypeHeadFlags", "openTypeOS2Selection", "openTypeOS2UnicodeRanges",
+                  "openTypeOS2CodePageRanges", "openTypeOS2Type")
+
+
+def has_repeated_bit(info):
+    lists = [info[a] for a in BIT_LIST_ATTRS if info.get(a) is not None]
+    lists += [r["rangeGaspBehavior"] for r in info.get("openTypeGaspRangeRecords") or ()]
+    return any(len(set(x)) != len(x) for x in lists)
 
 
 def make_font(info, module="ufoLib2", shift=0):
@@ -544,6 +559,7 @@ class C16(Property):
         if any(ord(ch) > 0x7F for s in strings for ch in s):
             ctrs["states_with_non_ascii_string"] += 1
         ctrs["explicit_attributes"] += len(info)
+        ctrs["states_with_repeated_bit_number"] += has_repeated_bit(info)
         if tt is None:
             v = violation("compile-failed",
                           {"stage": stage, "exc": type(exc).__name__, "flavour": kind,
@@ -586,6 +602,7 @@ class C16(Property):
                              only_tables={"name", "name-record", "head", "hhea", "OS/2", "post", "vhea", "gasp"},
                              base_ref=IR.InfoRef(base, int(os.environ.get("SOURCE_DATE_EPOCH", "0"))))
         ctrs["vf_compiled"] += 1
+        ctrs["states_with_repeated_bit_number"] += has_repeated_bit(merged)
         if override:
             ctrs["vf_overrides_checked"] += 1
         return Result(viols[:12], dict(ctrs), digest(sig), substates=1, nontrivial=1)
@@ -598,7 +615,8 @@ class C16(Property):
             if c.get(k, 0) != n:
                 out.append(violation("non-vacuity", {"counter": k}, expected=n, observed=c.get(k, 0)))
         for k in ("psname_ordered_pairs", "fractional_value_rounded", "value_at_half", "typographic_name_elided",
-                  "states_with_astral_string", "vf_overrides_checked", "loose_comparisons"):
+                  "states_with_astral_string", "vf_overrides_checked", "loose_comparisons",
+                  "states_with_repeated_bit_number"):
             if not c.get(k):
                 out.append(violation("non-vacuity", {"counter": k}, expected=">0", observed=0))
         return out
